@@ -2953,6 +2953,24 @@ impl Database {
                 }
 
                 let use_hash_join = !key_indices.is_empty() && condition_predicate.is_none();
+                let is_outer_join = matches!(
+                    join_type,
+                    crate::sql::ast::JoinType::Left
+                        | crate::sql::ast::JoinType::Right
+                        | crate::sql::ast::JoinType::Full
+                );
+                // the WHERE clause applied to a NULL-extended row
+                let padded_row_passes_where = |combined: &[OwnedValue]| -> bool {
+                    match where_predicate {
+                        Some(ref pred) => {
+                            let values: smallvec::SmallVec<[Value<'_>; 16]> =
+                                combined.iter().map(|v| v.to_value()).collect();
+                            let row_ref = ExecutorRow::new(&values);
+                            pred.evaluate(&row_ref)
+                        }
+                        None => true,
+                    }
+                };
 
                 let left_key_indices: Vec<usize> = key_indices.iter().map(|(l, _)| *l).collect();
                 let right_key_indices: Vec<usize> = key_indices
@@ -3018,11 +3036,18 @@ impl Database {
                                         true
                                     };
 
+                                    // an outer join pads the rows without a partner under the
+                                    // ON condition; the WHERE clause filters afterwards
+                                    if is_outer_join {
+                                        left_matched[left_idx] = true;
+                                        right_matched[right_idx] = true;
+                                    }
+
                                     if !passes_where {
                                         continue;
                                     }
 
-                                    let was_matched = left_matched[left_idx];
+                                    let was_matched = left_matched[left_idx] && !is_outer_join;
                                     left_matched[left_idx] = true;
                                     right_matched[right_idx] = true;
 
@@ -3108,11 +3133,16 @@ impl Database {
                                     true
                                 };
 
+                                if is_outer_join {
+                                    left_matched[left_idx] = true;
+                                    right_matched[right_idx] = true;
+                                }
+
                                 if !passes_where {
                                     continue;
                                 }
 
-                                let was_matched = left_matched[left_idx];
+                                let was_matched = left_matched[left_idx] && !is_outer_join;
                                 left_matched[left_idx] = true;
                                 right_matched[right_idx] = true;
 
@@ -3183,6 +3213,10 @@ impl Database {
                             combined_buf.extend(left_row.iter().cloned());
                             combined_buf.extend(std::iter::repeat_n(OwnedValue::Null, right_col_count));
 
+                            if !padded_row_passes_where(&combined_buf) {
+                                continue;
+                            }
+
                             let owned: Vec<OwnedValue> = output_source_indices
                                 .iter()
                                 .map(|(source_idx, data_type)| {
@@ -3240,27 +3274,19 @@ impl Database {
                         combined.extend(std::iter::repeat_n(OwnedValue::Null, left_col_count));
                         combined.extend(right_row.iter().cloned());
 
-                        let output_columns = physical_plan.output_schema.columns;
-                        let mut name_occurrence_count: std::collections::HashMap<String, usize> =
-                            std::collections::HashMap::new();
-                        let owned: Vec<OwnedValue> = output_columns
+                        if !padded_row_passes_where(&combined) {
+                            continue;
+                        }
+
+                        // projected through the select list, like every other row
+                        let owned: Vec<OwnedValue> = output_source_indices
                             .iter()
-                            .map(|col| {
-                                let col_name = col.name.to_lowercase();
-                                let occurrence =
-                                    *name_occurrence_count.get(&col_name).unwrap_or(&0);
-                                *name_occurrence_count.entry(col_name.clone()).or_insert(0) += 1;
-                                let source_idx = join_column_map
-                                    .iter()
-                                    .filter(|(name, _)| name == &col_name)
-                                    .nth(occurrence)
-                                    .map(|(_, idx)| *idx)
-                                    .unwrap_or(0);
+                            .map(|(source_idx, data_type)| {
                                 let val = combined
-                                    .get(source_idx)
+                                    .get(*source_idx)
                                     .cloned()
                                     .unwrap_or(OwnedValue::Null);
-                                convert_value_with_type(&val.to_value(), col.data_type)
+                                convert_value_with_type(&val.to_value(), *data_type)
                             })
                             .collect();
 
